@@ -115,6 +115,7 @@ func execute(sc Scenario, rng *rand.Rand) (rec, error) {
 	s := res.NewService("test")
 	s.SetLogger(nil)
 	stepPad = ""
+	reservedName = reservedNames[(sc.Name+len(sc.Script)+sc.Nl)%len(reservedNames)]
 	errVariant = (sc.Name+2*len(sc.Script))%3 == 1
 	if (sc.Name+len(sc.Script))%4 == 3 {
 		// one of the bundled loggers with everything switched on, and payloads of a few kilobytes
@@ -765,6 +766,10 @@ func verbatim(code, message, data string) string {
 	return code
 }
 
+// reservedName is the reserved event name the step ev-reserved uses in the current scenario.
+var reservedName = "change"
+var reservedNames = []string{"change", "delete", "add", "remove", "patch", "reaccess", "unsubscribe", "query"}
+
 // stepPad, when set, is added to the values the handler steps send (payloads far above a kilobyte)
 var stepPad string
 
@@ -900,7 +905,8 @@ func doStep(r *res.Request, st string) {
 	case "ev-dot":
 		r.Event("a.b", nil)
 	case "ev-reserved":
-		r.Event("change", nil)
+		// one of the names the documentation reserves (the scenario picks which): Event panics, nothing is sent
+		r.Event(reservedName, map[string]int{"x": 1})
 	case "ev-malformed":
 		r.Event("a.b", nil)
 	case "ev-change":
